@@ -235,6 +235,14 @@ def starEdges (legs : List (List PS)) : List (PS × PS) :=
 def isStarEdge (legs : List (List PS)) (a b : PS) : Bool :=
   (starEdges legs).any (fun (x, y) => (x.beq a && y.beq b) || (x.beq b && y.beq a))
 
+/-- first pair of vertices (in `combinations` order) whose anticommutation disagrees with the star -/
+def firstMismatch (legs : List (List PS)) : List (PS × PS) → Except Err (Option (PS × PS × Bool))
+  | [] => .ok none
+  | (a, b) :: rest => do
+    let anti := !(← a.commutesWith b)
+    if anti != isStarEdge legs a b then return some (a, b, anti)
+    firstMismatch legs rest
+
 /-- `none` = the legs are a canonical star: centre leg is one vertex, vertices
 distinct, no empty leg, at most one leg longer than two, legs ordered by
 non-decreasing length, and two vertices anticommute exactly when they are joined
@@ -250,11 +258,10 @@ def shapeCheck (legs : List (List PS)) : Except Err (Option String) := do
     if (rest.filter (fun l => l.length > 2)).length > 1 then return some "more than one long leg"
     let lens := rest.map List.length
     if !(lens.zip (lens.drop 1)).all (fun (a, b) => a ≤ b) then return some "legs not sorted by length"
-    for (a, b) in Graph.combinations2 vs do
-      let anti := !(← a.commutesWith b)
-      if anti != isStarEdge legs a b then
-        return some s!"edge mismatch at {a},{b}: anticommute={anti} star-edge={isStarEdge legs a b}"
-    return none
+    match ← firstMismatch legs (Graph.combinations2 vs) with
+    | some (a, b, anti) =>
+      return some s!"edge mismatch at {a},{b}: anticommute={anti} star-edge={isStarEdge legs a b}"
+    | none => return none
 
 /-! ### Invariants of a finite closed set of Pauli strings and of a named algebra
 (the verified per-input checker of C01/C09/C19) -/
